@@ -266,7 +266,7 @@ structure WFFn (cs : Array Const) (nf : Nat) (f : CFn) : Prop where
     ∃ g, cs[readBE f.insts (p + 1) 2]? = some (.fn g) ∧ FreeBound (readBE f.insts (p + 3) 1) g.insts
 
 theorem wfFn_of_finFn {cs : Array Const} {nf : Nat} {f : CFn} (h : FinFn cs nf f) : WFFn cs nf f := by
-  obtain ⟨⟨⟨hw, ht⟩, hj, hr⟩, hp⟩ := h
+  obtain ⟨⟨⟨hw, ht⟩, hj, hr⟩, hp, _⟩ := h
   refine ⟨hp, hw, hr, ?_, ?_, ?_, ?_, ?_, ?_, ?_⟩
   · intro p op hbd hop hc
     have hjo : isJumpOp op.toNat = true := by
@@ -328,19 +328,55 @@ def TryStrict (f : CFn) : Prop :=
   ∀ p op, Bd f.insts p → f.insts[p]? = some op → op.toNat = OpSetupTry →
     (readBE f.insts (p + 1) 4 = 0 ∨ Bd f.insts (readBE f.insts (p + 1) 4)) ∧ Bd f.insts (readBE f.insts (p + 5) 4)
 
+theorem tryStrict_of_finFn {cs : Array Const} {nf : Nat} {f : CFn} (h : FinFn cs nf f) : TryStrict f := by
+  intro p op hbd hop hc
+  obtain ⟨w1, w2⟩ := (wfFn_of_finFn h).try_ p op hbd hop hc
+  obtain ⟨l1, l2⟩ := h.2.2 p op hbd hop hc
+  exact ⟨.inr ⟨w1, l1⟩, ⟨w2, l2⟩⟩
+
+/-- **the SETUPTRY operands of compiled code lie strictly inside their function** (`TryStrict`, over
+    main and every function constant): the catch operand (0 when there is no catch clause: the
+    SETUPTRY itself is an instruction, so offset 0 is a start as well) and the finally operand are
+    instruction starts, never the end-of-stream offset.  Invariant `Inv.tryLt` (`TryLt`: both
+    operands of every SETUPTRY emitted so far are below the current length of the stream): the
+    catch position is read right before SETUPCATCH is emitted at it, the finally position is that of
+    the emitted SETUPFINALLY, and only then is SETUPTRY patched (`st_changeOperand … hstrict`);
+    the stream only grows afterwards. -/
+theorem compile_try_strict (builtins : List (String × Nat)) (hb : BuiltinsOK builtins) (disabled : List String)
+    (file : List Stmt) (hok : okSs file = true) (bc : Bytecode) (h : compileFile builtins disabled file = .ok bc) :
+    TryStrict bc.main ∧ ∀ g, Const.fn g ∈ bc.constants.toList → TryStrict g := by
+  have hg := compileFile_sat builtins hb disabled file hok
+  rw [h] at hg
+  obtain ⟨_, h2, h3⟩ := hg
+  refine ⟨tryStrict_of_finFn h2, ?_⟩
+  intro g hgm
+  obtain ⟨_, nf, hf⟩ := h3 (.fn g) hgm g rfl
+  exact tryStrict_of_finFn hf
+
+/-- non-vacuity of `compile_try_strict`: `try { 1 } catch { } finally { }` compiles; the stream starts
+    with SETUPTRY, whose catch operand is non-zero and below the finally operand, which is below the
+    length of the stream -/
+def tryDemo : List Stmt := [.try_ 1 1 [.expr 2 (.int 2 1#64)] (some (3, none, 3, [])) (some (4, 4, []))]
+example : okSs tryDemo = true := by decide
+example : (match compileFile [] [] tryDemo with
+    | .ok bc => bc.main.insts[0]? == some 34 && decide (0 < readBE bc.main.insts 1 4) &&
+        decide (readBE bc.main.insts 1 4 < readBE bc.main.insts 5 4) && decide (readBE bc.main.insts 5 4 < bc.main.insts.size)
+    | .error _ => false) = true := by decide +kernel
+
 /-- The full statement: `compileFile` returns an error or bytecode that is well formed (`WF`) and in
     which, for main and every function constant, local slots are below NumLocals (`LocalsOK`) and try
     targets lie strictly inside (`TryStrict`); and the claim covers scanner, parser, optimizer and
     module import.
 
-    Proved: `compile_no_panic` (the error side, for every AST) and `compile_wf` (`WF`).
+    Proved: `compile_no_panic` (the error side, for every AST), `compile_wf` (`WF`) and
+    `compile_try_strict` (`TryStrict`, round 5).
 
     Not proved — checked on real bytecode by the structural scan of stream `compilefuzz`:
     `LocalsOK` (it does not hold for every AST: `DefineLocal(":array")` of a destructuring
     assignment and the identifier of `catch` / `for-in` return an existing symbol of any scope and
     its index is emitted as a local slot; excluding that needs identifier hygiene — no user symbol
-    named `:array` — and block-table facts the invariant does not carry), and `TryStrict` (proved is:
-    try targets are instruction boundaries).  Not modelled: scanner / parser / optimizer / imports. -/
+    named `:array` — and block-table facts the invariant does not carry).
+    Not modelled: scanner / parser / optimizer / imports. -/
 def C05_full : Prop :=
   ∀ (builtins : List (String × Nat)), BuiltinsOK builtins → ∀ (disabled : List String) (file : List Stmt),
     okSs file = true →
